@@ -96,6 +96,19 @@ static int verif_open(const char *path, int flags, ...)
 	return open_result;
 }
 
+/* stat(2) on the target path: when open(O_EXCL) is modelled as failing, the path exists --
+ * as an empty regular file, the most tempting thing to "reuse" */
+#include <sys/stat.h>
+static int verif_stat(const char *p, struct stat *sb)
+{
+	(void)p;
+	if (open_result >= 0) { errno = ENOENT; return -1; }
+	sb->st_mode = S_IFREG | 0644;
+	sb->st_size = 0;
+	return 0;
+}
+#define stat(p, sb) verif_stat((p), (sb))
+#define lstat(p, sb) verif_stat((p), (sb))
 #define write verif_write
 #define lseek verif_lseek
 #define dup verif_dup
@@ -104,6 +117,8 @@ static int verif_open(const char *path, int flags, ...)
 #define fprintf(...) ((void)0)
 #include "mtbl/block_builder.c"
 #include "mtbl/writer.c"
+#undef stat
+#undef lstat
 #undef write
 #undef lseek
 #undef dup
